@@ -1,600 +1,27 @@
-"""C23 — Connection transactions and savepoints have nested-transaction semantics (class B, exhaustive exploration).
+"""C23 — connection transactions and savepoints have nested-transaction semantics: the context-manager protocol
+(engine/util.py::TransactionalContext.__enter__/__exit__/_trans_ctx_check) under proof — the link to the enclosing transaction is
+restored on every path — and the operation-sequence exploration on SQLite (checks/C23_explore.py) as the bounded complement."""
+import contracts.transaction_ctx  # noqa: F401
+from pyvc.contract import FUNCS
+from vlib.proof import run_proofs
+from checks import C23_explore
 
-Drives the REAL ``Connection.begin / begin_nested / commit / rollback / close / execute``, ``RootTransaction`` and
-``NestedTransaction`` ``commit / rollback / close / __enter__ / __exit__`` on a file-backed SQLite database
-(``create_engine("sqlite:///<tempdir>/c23.db", connect_args={"autocommit": False})`` — the documented non-legacy
-transaction mode of the sqlite3 driver, in which SAVEPOINT takes part in the enclosing transaction).  What other
-connections see is read through an independent raw ``sqlite3`` connection after EVERY step; what the subject connection
-itself sees is read through its own raw DBAPI connection (a plain SELECT, which does not change transaction state).
-
-Ghost model (taken from the documentation of Connection / Transaction / NestedTransaction, not from the code):
-a stack of frames — root + live savepoints — each with the keys inserted since it began, the committed set, the handle
-``T`` returned by the last successful ``begin()``, the savepoint handles ``N[-1]`` (most recent) and ``N[-2]``, and the
-innermost entered context manager ``ctx``:
-  begin           no transaction, open, ctx not dead → push root;   otherwise raises
-  begin_nested    open, ctx not dead → autobegin if needed, push savepoint;   otherwise raises
-  ins             open, ctx not dead → autobegin, key goes to the innermost frame;   otherwise raises
-  commit / T.commit (T live)   every frame's keys become committed, stack empty;   T.commit with T ended raises
-  rollback / close / T.rollback / T.close (T live)   every frame discarded (close: closed);   on an ended T: no effect, no error
-  N.commit (N live)   RELEASE: N and every savepoint inside it merge into N's parent;   N ended: raises
-  N.rollback / N.close (N live)   ROLLBACK TO: N and everything inside it discarded, exactly;   N ended: no effect, no error
-  h.__enter__     ctx := h;   h.__exit__(None) ≡ h.commit() if h live;   h.__exit__(exc) ≡ h.rollback() if h live; ctx restored
-  "ctx dead"      a context manager is entered whose transaction has ended: begin / begin_nested / ins and the savepoint
-                  commands of a live N raise until it exits ("Please complete the context manager before emitting further
-                  commands"); after a refused savepoint command the rest of the sequence is not judged (undocumented state)
-
-Contract clauses evaluated after EVERY step:
-  F1  conn.closed == ghost.closed
-  F2  in_transaction() == (ghost stack non-empty)          F3  in_nested_transaction() == (a ghost savepoint is live) and
-      get_nested_transaction() is the handle of the innermost live ghost savepoint
-  F4  in_nested_transaction() ⇒ in_transaction();  nothing active on a closed connection
-  F5  rows visible from the independent connection == ghost.committed                       (no phantom / lost commit)
-  F6  rows visible to the subject connection == ghost.committed ∪ keys of all live frames  (a savepoint rollback discards
-      exactly the inner writes; an outer rollback / close discards everything uncommitted)
-  F7  when the ghost stack is empty (after commit / rollback / close) no connection holds uncommitted writes any more
-  E1  anything an operation raises is InvalidRequestError or ResourceClosedError
-  E2  an operation the ghost says must raise (ended transaction, closed connection, second begin, dead ctx) raises
-  E3  an operation the ghost says is legal does not raise
-Only the first failing clause of a sequence is reported (every prefix is itself an enumerated sequence).
-
-Scope (exact text in coverage.scope), two enumerations run by the same interpreter ``run_seq`` and judged by the same clauses:
-  (1) ALL operation sequences of length <= 5 (quick) / <= 6 (thorough) over the 20 operations OPS
-      (t = handle of the last successful begin(), n / m = handles of the last / last-but-one successful begin_nested());
-  (2) with-block programs, longer than (1) reaches: the block skeletons SKELETONS — ``with conn.begin():`` containing
-      ``with conn.begin_nested():``; an autobegun ``with conn.begin_nested():`` containing another; three levels; two inner
-      blocks one after the other — every block independently left normally or by exception (the exception being handled
-      in the enclosing block), with up to 2 / 1 (quick) or 3 / 2 (thorough) extra operations (two-block / three-block
-      skeletons) from EXTRAS (begin, begin_nested, ins, commit, rollback, close and commit / rollback / close on the t / n /
-      m handles) inserted at every combination of points inside the block bodies and after the outermost block.  This is
-      where an inner block exits by exception or after its transaction was already ended in-block, the enclosing
-      transaction is then ended in-block, and further operations are attempted inside the still-open outer block (which
-      the "ctx dead" rule says must raise).  ``n3.`` .. ``n9.`` address the 3rd .. 9th most recent begin_nested() handle.
-Bounded; not a proof.
-"""
-import itertools
-import json
-import os
-import sqlite3
-import tempfile
-import time
-import warnings
-
-from rtc.shard import default_procs, shard_map
-
-LEVEL = "exploration"
-FUNCTION = "sqlalchemy.engine.base.Connection/RootTransaction/NestedTransaction"
-
-OPS = ["begin", "begin_nested", "ins", "commit", "rollback", "close",
-       "t.commit", "t.rollback", "t.close",
-       "n.commit", "n.rollback", "n.close",
-       "m.commit", "m.rollback",
-       "t.enter", "t.exit_ok", "t.exit_raise", "n.enter", "n.exit_ok", "n.exit_raise"]
-
-
-class Frame:
-    __slots__ = ("kind", "writes", "live", "outer_ctx", "entered", "handle")
-
-    def __init__(self, kind, handle=None):
-        self.kind, self.writes, self.live, self.outer_ctx, self.entered, self.handle = kind, [], True, None, False, handle
-
-
-class Ghost:
-    def __init__(self):
-        self.closed = False
-        self.root = None
-        self.sps = []
-        self.committed = set()
-        self.ctx = None          # Frame of the innermost entered context manager
-
-    def frames(self):
-        return ([self.root] if self.root else []) + self.sps
-
-    def end_all(self, commit):
-        for f in self.frames():
-            if commit:
-                self.committed.update(f.writes)
-            f.live = False
-        self.root, self.sps = None, []
-
-    def release(self, f):
-        i = self.sps.index(f)
-        parent = self.sps[i - 1] if i > 0 else self.root
-        for g in self.sps[i:]:
-            parent.writes.extend(g.writes)
-            g.live = False
-        del self.sps[i:]
-
-    def rollback_to(self, f):
-        i = self.sps.index(f)
-        for g in self.sps[i:]:
-            g.live = False
-        del self.sps[i:]
-
-    def visible(self):
-        s = set(self.committed)
-        for f in self.frames():
-            s.update(f.writes)
-        return s
-
-    def ctx_dead(self):
-        return self.ctx is not None and not self.ctx.live
-
-
-class Env:
-    """one engine + one observer per worker process"""
-
-    def __init__(self):
-        from sqlalchemy import create_engine
-        base = "/dev/shm" if os.path.isdir("/dev/shm") and os.access("/dev/shm", os.W_OK) else None
-        self.tmp = tempfile.TemporaryDirectory(prefix="verif-c23-", dir=base)
-        self.path = os.path.join(self.tmp.name, "c23.db")
-        self.engine = create_engine(f"sqlite:///{self.path}", connect_args={"autocommit": False})
-        self.obs = sqlite3.connect(self.path, isolation_level=None, timeout=0)
-        self.obs.execute("create table t (k integer)")
-
-    def observed(self):
-        return sorted(r[0] for r in self.obs.execute("select k from t"))
-
-    def write_lock_free(self):
-        """True iff no other connection holds uncommitted writes (SQLite RESERVED lock)"""
-        try:
-            self.obs.execute("begin immediate")
-        except sqlite3.OperationalError:
-            return False
-        self.obs.execute("rollback")
-        return True
-
-    def close(self):
-        self.obs.close()
-        self.engine.dispose()
-        self.tmp.cleanup()
-
-
-def run_seq(env, ops, trace=False):
-    """returns dict(status='ok'|'pruned'|'fail', steps=n, failure=..., raised=[...], trace=[...])"""
-    from sqlalchemy import exc as sa_exc
-    try:
-        env.obs.execute("delete from t")
-    except sqlite3.OperationalError:           # a previous sequence left a lock behind (already reported there): start clean
-        env.engine.dispose()
-        env.obs.execute("delete from t")
-    conn = env.engine.connect()
-    G = Ghost()
-    T = None            # (handle, Frame)
-    N = []              # [(handle, Frame)]
-    k = 0
-    raised = []
-    tr = []
-    out = dict(status="ok", steps=0, failure=None)
-
-    def state():
-        def st(x):
-            return None if x is None else ("live" if x[1].live else "ended")
-        return (f"closed={G.closed} root={'live' if G.root else None} savepoints={len(G.sps)} T={st(T)} "
-                f"n={st(N[-1]) if N else None} m={st(N[-2]) if len(N) > 1 else None} "
-                f"ctx={None if G.ctx is None else (G.ctx.kind + ('-live' if G.ctx.live else '-ended'))}")
-
-    try:
-        for i, op in enumerate(ops):
-            pre = state()
-            # ---- ghost verdict BEFORE the call: must_raise?, effect thunk
-            target = None
-            if op.startswith("t."):
-                if T is None:
-                    out["status"] = "pruned"
-                    break
-                target = T
-            elif op.startswith("n."):
-                if not N:
-                    out["status"] = "pruned"
-                    break
-                target = N[-1]
-            elif op.startswith("m."):
-                if len(N) < 2:
-                    out["status"] = "pruned"
-                    break
-                target = N[-2]
-            elif op[0] == "n" and op[1].isdigit():          # "n3." = N[-3] (with-block programs only)
-                j = int(op[1])
-                if len(N) < j:
-                    out["status"] = "pruned"
-                    break
-                target = N[-j]
-            verb = op.split(".")[1] if target else op
-            if verb == "enter" and target[1].entered:
-                out["status"] = "pruned"
-                break
-            if verb in ("exit_ok", "exit_raise") and not target[1].entered:
-                out["status"] = "pruned"
-                break
-
-            tdesc = None
-            if target is not None:
-                fr_ = target[1]
-                tdesc = f"{fr_.kind} {'live' if fr_.live else 'ended'}"
-                if fr_.kind == "savepoint" and fr_.live:
-                    tdesc += f" inner_live={len(G.sps) - G.sps.index(fr_) - 1}"
-            must_raise = False
-            if verb == "begin":
-                must_raise = G.closed or G.root is not None or G.ctx_dead()
-            elif verb in ("begin_nested", "ins"):
-                must_raise = G.closed or G.ctx_dead()
-            elif target is not None and verb == "commit":
-                must_raise = not target[1].live
-            undetermined = False
-            if target is not None and target[1].kind == "savepoint" and target[1].live and G.ctx_dead() \
-                    and verb in ("commit", "rollback", "close", "exit_ok", "exit_raise"):
-                # RELEASE / ROLLBACK TO are commands emitted through the Connection: refused while a context manager whose
-                # transaction has ended is still entered.  What state the savepoint handle is left in is not documented:
-                # the operation must raise; the rest of the sequence is not judged.
-                must_raise = True
-                undetermined = True
-
-            if G.ctx_dead() and not G.closed and (verb in ("begin", "begin_nested", "ins") or undetermined):
-                out["ctx_dead_steps"] = out.get("ctx_dead_steps", 0) + 1       # the dead-context-manager guard is exercised
-
-            # ---- the real call
-            err = None
-            new_handle = None
-            try:
-                if op == "begin":
-                    new_handle = conn.begin()
-                elif op == "begin_nested":
-                    new_handle = conn.begin_nested()
-                elif op == "ins":
-                    k += 1
-                    conn.exec_driver_sql("insert into t values (?)", (k,))
-                elif op == "commit":
-                    conn.commit()
-                elif op == "rollback":
-                    conn.rollback()
-                elif op == "close":
-                    conn.close()
-                elif verb in ("commit", "rollback", "close"):
-                    getattr(target[0], verb)()
-                elif verb == "enter":
-                    target[0].__enter__()
-                elif verb == "exit_ok":
-                    target[0].__exit__(None, None, None)
-                elif verb == "exit_raise":
-                    target[0].__exit__(ValueError, ValueError("body failed"), None)
-            except BaseException as ex:  # noqa: classified right here, object not kept
-                err = (type(ex).__name__, isinstance(ex, (sa_exc.InvalidRequestError, sa_exc.ResourceClosedError)), str(ex)[:140])
-            raised.append((op, err[0] if err else None))
-            out["steps"] = i + 1
-
-            # ---- ghost effect (only if the operation is legal; a raising operation must leave everything unchanged)
-            if not must_raise:
-                if op == "begin":
-                    G.root = Frame("root")
-                    T = (new_handle, G.root)
-                elif op == "begin_nested":
-                    if G.root is None:
-                        G.root = Frame("root")
-                    f = Frame("savepoint", new_handle)
-                    G.sps.append(f)
-                    N.append((new_handle, f))
-                elif op == "ins":
-                    if G.root is None:
-                        G.root = Frame("root")
-                    (G.sps[-1] if G.sps else G.root).writes.append(k)
-                elif op == "commit":
-                    G.end_all(True)
-                elif op == "rollback":
-                    G.end_all(False)
-                elif op == "close":
-                    G.end_all(False)
-                    G.closed = True
-                elif target is not None:
-                    fr = target[1]
-                    eff = verb
-                    if verb == "enter":
-                        fr.outer_ctx = G.ctx
-                        G.ctx = fr
-                        fr.entered = True
-                        eff = None
-                    elif verb in ("exit_ok", "exit_raise"):
-                        eff = "commit" if verb == "exit_ok" else "rollback"
-                        if not fr.live:
-                            eff = None
-                    if eff and fr.live:
-                        if fr.kind == "root":
-                            G.end_all(eff == "commit")
-                        elif eff == "commit":
-                            G.release(fr)
-                        else:
-                            G.rollback_to(fr)
-                    if verb in ("exit_ok", "exit_raise"):
-                        if G.ctx is fr:
-                            G.ctx = fr.outer_ctx
-                        fr.outer_ctx = None
-                        fr.entered = False
-
-            # ---- clauses
-            fail = None
-            if err and not err[1]:
-                fail = ("E1-foreign-exception", f"{err[0]}: {err[2]}")
-            elif must_raise and not err:
-                fail = ("E2-misuse-did-not-raise", "the ghost says this operation must raise; it returned normally")
-            elif err and not must_raise:
-                fail = ("E3-legal-operation-raised", f"{err[0]}: {err[2]}")
-            if fail is None and undetermined:
-                out["status"] = "undetermined"
-                break
-            if fail is None:
-                it, inn, cl = conn.in_transaction(), conn.in_nested_transaction(), conn.closed
-                obs = env.observed()
-                if cl != G.closed:
-                    fail = ("F1-closed-flag", f"conn.closed={cl} ghost={G.closed}")
-                elif inn and not it:
-                    fail = ("F4-nested-without-transaction", "in_nested_transaction() and not in_transaction()")
-                elif cl and (it or inn):
-                    fail = ("F4-active-on-closed-connection", f"in_transaction={it} in_nested_transaction={inn}")
-                elif it != (G.root is not None):
-                    fail = ("F2-in_transaction", f"in_transaction()={it} ghost={G.root is not None}")
-                elif inn != bool(G.sps):
-                    fail = ("F3-in_nested_transaction", f"in_nested_transaction()={inn} ghost savepoints={len(G.sps)}")
-                elif conn.get_nested_transaction() is not (G.sps[-1].handle if G.sps else None):
-                    fail = ("F3-current-savepoint", "get_nested_transaction() is not the innermost live savepoint of the ghost")
-                elif obs != sorted(G.committed):
-                    fail = ("F5-committed-data", f"independent connection sees {obs}, ghost committed {sorted(G.committed)}")
-                elif G.root is None and not env.write_lock_free():
-                    fail = ("F7-uncommitted-work-survives", "no transaction in the ghost, yet a connection still holds uncommitted writes")
-                elif not cl:
-                    mine = sorted(r[0] for r in conn.connection.dbapi_connection.execute("select k from t"))
-                    if mine != sorted(G.visible()):
-                        fail = ("F6-visible-to-subject", f"subject sees {mine}, ghost {sorted(G.visible())}")
-                if trace:
-                    tr.append(dict(op=op, raised=err and err[0], in_transaction=it, in_nested_transaction=inn, closed=cl,
-                                   committed_seen=obs, ghost=state()))
-            elif trace:
-                tr.append(dict(op=op, raised=err and err[0], ghost=state()))
-            if fail:
-                out["status"] = "fail"
-                out["failure"] = dict(clause=fail[0], detail=fail[1], step=i, op=op, pre=pre, target=tdesc)
-                break
-    finally:
-        try:
-            conn.close()
-        except BaseException:  # noqa
-            pass
-        if conn.closed is False or getattr(conn, "_dbapi_connection", None) is not None:
-            env.engine.dispose()
-    out["raised"] = raised
-    out["trace"] = tr
-    return out
-
-
-def sequences(maxlen):
-    """DFS over operation sequences; a prefix whose last operation cannot have a target (no earlier begin() for t.*, fewer
-    earlier begin_nested() than needed for n.* / m.*, exit without an earlier enter) is cut together with all its
-    extensions — such a sequence equals a shorter one.  (The remaining 'no target' cases depend on whether an earlier
-    operation succeeded and are pruned at run time.)"""
-    def ok(prefix, op):
-        if op.startswith("t.") and "begin" not in prefix:
-            return False
-        if op.startswith("n.") and "begin_nested" not in prefix:
-            return False
-        if op.startswith("m.") and prefix.count("begin_nested") < 2:
-            return False
-        if op.endswith(("exit_ok", "exit_raise")) and (op[:2] + "enter") not in prefix:
-            return False
-        return True
-
-    def rec(prefix):
-        if prefix:
-            yield prefix
-        if len(prefix) == maxlen:
-            return
-        for op in OPS:
-            if ok(prefix, op):
-                yield from rec(prefix + (op,))
-    yield from rec(())
-
-
-EXTRAS = ["begin", "begin_nested", "ins", "commit", "rollback", "close",
-          "t.commit", "t.rollback", "t.close", "n.commit", "n.rollback", "n.close", "m.commit", "m.rollback"]
-
-# with-block skeletons: ("root",) = begin(); ("sp", id) = begin_nested(); ("enter"|"exit", id); None = a slot where extra
-# operations may be inserted (i.e. every point INSIDE a with-block body, plus the point after the outermost block).
-# id "R" is the RootTransaction handle, "A" / "B" / "C" are NestedTransaction handles.
-SKELETONS = {
-    # with conn.begin(): ... with conn.begin_nested(): ... <inner exit> ... <outer exit> ...
-    "root>sp": (2, [("root",), ("enter", "R"), None, ("sp", "A"), ("enter", "A"), None, ("exit", "A"), None, ("exit", "R"), None]),
-    # autobegin; with conn.begin_nested(): ... with conn.begin_nested(): ...
-    "sp>sp": (2, [("sp", "A"), ("enter", "A"), None, ("sp", "B"), ("enter", "B"), None, ("exit", "B"), None, ("exit", "A"), None]),
-    # three levels
-    "root>sp>sp": (3, [("root",), ("enter", "R"), None, ("sp", "A"), ("enter", "A"), None, ("sp", "B"), ("enter", "B"), None,
-                       ("exit", "B"), None, ("exit", "A"), None, ("exit", "R"), None]),
-    # two inner blocks one after the other
-    "root>sp,sp": (3, [("root",), ("enter", "R"), None, ("sp", "A"), ("enter", "A"), None, ("exit", "A"), None,
-                       ("sp", "B"), ("enter", "B"), None, ("exit", "B"), None, ("exit", "R"), None]),
-}
-
-
-def with_programs(k2, k3, minlen):
-    """with-block programs: every skeleton above x every way its blocks exit (normally / by exception, independently) x
-    every way of inserting <= k extra operations (k2 for the two-block skeletons, k3 for the three-block ones) from
-    EXTRAS into the slots.  Handles are written in the t / n / m / n3.. language of run_seq (n = most recent
-    begin_nested() so far, m = the one before, ...), resolved by counting the begin_nested operations before each point;
-    programs of length <= minlen are skipped (they are members of the exhaustive scope)."""
-    for name, (nblocks, skel) in SKELETONS.items():
-        k = k2 if nblocks == 2 else k3
-        nslots = sum(1 for x in skel if x is None)
-        for exits in itertools.product(("exit_ok", "exit_raise"), repeat=nblocks):
-            for n_extra in range(k + 1):
-                for slots in itertools.combinations_with_replacement(range(nslots), n_extra):
-                    for extras in itertools.product(EXTRAS, repeat=n_extra):
-                        ops, count, ordinal, si, xi, bad = [], 0, {}, 0, 0, False
-                        fill = {}
-                        for sl, e in zip(slots, extras):
-                            fill.setdefault(sl, []).append(e)
-                        for tok in skel:
-                            if tok is None:
-                                for e in fill.get(si, ()):
-                                    ops.append(e)
-                                    if e == "begin_nested":
-                                        count += 1
-                                si += 1
-                                continue
-                            if tok[0] == "root":
-                                ops.append("begin")
-                            elif tok[0] == "sp":
-                                ops.append("begin_nested")
-                                count += 1
-                                ordinal[tok[1]] = count
-                            else:
-                                if tok[1] == "R":
-                                    h = "t"
-                                else:
-                                    j = count - ordinal[tok[1]] + 1
-                                    h = "n" if j == 1 else "m" if j == 2 else f"n{j}"
-                                    bad = bad or j > 9
-                                if tok[0] == "enter":
-                                    ops.append(h + ".enter")
-                                else:
-                                    ops.append(h + "." + exits[xi])
-                                    xi += 1
-                        if not bad and len(ops) > minlen:
-                            yield tuple(ops)
-
-
-def worker(shard, nshards, maxlen, k2=0, k3=0):
-    warnings.simplefilter("ignore")
-    env = Env()
-    out = dict(sequences=0, evaluated=0, pruned=0, steps=0, failures=[], outcomes={}, samples=[], truncated=0, undetermined=0,
-               with_programs=0, with_programs_ctx_dead=0)
-    try:
-        n_exh = 0
-        for idx, ops in enumerate(itertools.chain(sequences(maxlen), [None], with_programs(k2, k3, maxlen))):
-            if ops is None:
-                n_exh = idx
-                continue
-            if idx % nshards != shard:
-                continue
-            out["sequences"] += 1
-            r = run_seq(env, ops)
-            if n_exh:
-                out["with_programs"] += 1
-                if r.get("ctx_dead_steps"):
-                    out["with_programs_ctx_dead"] += 1
-            if r["status"] == "pruned":
-                out["pruned"] += 1
-                continue
-            if r["status"] == "undetermined":
-                out["undetermined"] += 1
-            out["evaluated"] += 1
-            out["steps"] += r["steps"]
-            if r["status"] == "fail":
-                if r["steps"] < len(ops):
-                    out["truncated"] += 1
-                f = r["failure"]
-                out["failures"].append(dict(ops=list(ops), **f))
-            # abstract outcome of the whole sequence: which steps raised what
-            key = "|".join(f"{o}:{e or '-'}" for o, e in r["raised"])
-            out["outcomes"][key] = out["outcomes"].get(key, 0) + 1
-            if len(out["samples"]) < 1 and len(ops) == maxlen and any(e for _, e in r["raised"]) and r["status"] == "ok":
-                out["samples"].append(dict(ops=list(ops), raised=r["raised"]))
-    finally:
-        env.close()
-    # distinct non-trivial: distinct evaluated sequences in which at least one step raised OR a savepoint was involved
-    out["distinct_outcomes"] = len(out["outcomes"])
-    out["with_error_step"] = sum(v for k, v in out["outcomes"].items() if any(not p.endswith(":-") for p in k.split("|")))
-    del out["outcomes"]
-    return out
+LEVEL = "proof"
+KEYS = [k for k, c in FUNCS.items() if "C23" in c.props and c.proof and not c.abstract]
+replay = C23_explore.replay
 
 
 def run(run, tier, seed, args):
-    warnings.simplefilter("ignore")
-    maxlen = 5 if tier == "quick" else 6
-    k2, k3 = (2, 1) if tier == "quick" else (3, 2)
-    procs = default_procs(tier)
-    t0 = time.time()
-    res = shard_map(worker, procs, procs, maxlen, k2, k3)
-    tot = dict(sequences=0, evaluated=0, pruned=0, steps=0, truncated=0, distinct_outcomes=0, with_error_step=0, undetermined=0,
-               with_programs=0, with_programs_ctx_dead=0)
-    failures, samples = [], []
-    for r in res:
-        if r is None or "crash" in r:
-            run.crashes.append((r or {}).get("crash", "shard returned nothing"))
-            continue
-        for k_ in tot:
-            tot[k_] += r[k_]
-        failures += r["failures"]
-        samples += r["samples"]
-    env = Env()
-    try:
-        tr = run_seq(env, ("begin_nested", "ins", "n.rollback", "commit"), trace=True)
-    finally:
-        env.close()
-    samples = samples[:3] + [dict(ops=["begin_nested", "ins", "n.rollback", "commit"], trace=tr["trace"])]
-    run.coverage.update(
-        evaluations=tot["evaluated"], distinct_nontrivial=tot["with_error_step"],
-        rule="(1) every sequence over the 20 operations is enumerated depth-first; (2) every with-block program (see scope) "
-             "is enumerated; both kinds are run by the same interpreter and judged by the same clauses; a sequence in which an operation has no "
-             "target yet (t.* before a begin(), n.* before a begin_nested(), m.* before two, exit before enter, second enter) "
-             "is pruned (statically, or at run time when it depends on an earlier operation having succeeded) because it "
-             "equals a shorter enumerated sequence; each remaining sequence is distinct by construction. "
-             "A sequence is non-trivial (distinct_nontrivial) when at least one of its steps raised, i.e. it exercises "
-             "misuse / an ended transaction / a closed connection; distinct_outcomes (summed per shard) counts distinct "
-             "(operation, exception class) traces; with_programs_guard_exercised counts the with-block programs in which "
-             "an operation was attempted while an entered context manager's transaction had already ended",
-        samples=samples, exhaustive=True,
-        scope=f"all operation sequences of length <= {maxlen} over {OPS} on one Connection (savepoint depth <= {maxlen}), "
-              f"PLUS all with-block programs longer than that: the block skeletons {sorted(SKELETONS)} (root = 'with conn.begin()', "
-              f"sp = 'with conn.begin_nested()', '>' = nested inside, ',' = one after the other; 'sp>sp' autobegins), every block "
-              f"independently exiting normally or by exception, with <= {k2} (two-block skeletons) / <= {k3} (three-block "
-              f"skeletons) extra operations from {EXTRAS} inserted at any points inside the block bodies / after the outermost "
-              f"block; file-backed SQLite in sqlite3 autocommit=False mode, one independent observer connection; every step judged",
-        with_programs=tot["with_programs"], with_programs_guard_exercised=tot["with_programs_ctx_dead"],
-        sequences_enumerated=tot["sequences"], pruned_no_target=tot["pruned"], steps_judged=tot["steps"],
-        sequences_cut_at_first_failure=tot["truncated"],
-        sequences_cut_after_refused_savepoint_command_in_dead_ctx=tot["undetermined"], distinct_outcomes=tot["distinct_outcomes"],
-        processes=procs, enumeration_wall_s=round(time.time() - t0, 1))
+    run_proofs(run, KEYS, tier, update_baseline=args.update_baseline, source_root=args.source_root)
+    proof_cov = {k: run.coverage[k] for k in ("obligations", "discharged", "functions_under_contract", "samples", "checker_cmd", "trusted_base", "backends", "solver_ms_total")}
+    if not args.source_root:
+        C23_explore.run(run, tier, seed, args)
+        # keep the exploration's own counters as a labelled block, the proof counters on top
+        expl = {k: run.coverage.get(k) for k in ("evaluations", "distinct_nontrivial", "rule", "scope", "exhaustive")}
+        run.coverage.setdefault("bounded", []).append(dict(expl, label="bounded (not proof)", function="Connection / Transaction operation sequences (checks/C23_explore.py)"))
+        run.coverage["samples_exploration"] = run.coverage.get("samples")
+    run.coverage.update(proof_cov)
     run.assumptions += [
-        "SQLite (sqlite3 driver, autocommit=False i.e. PEP-249 transaction control) stands for 'a backend'; PostgreSQL / MariaDB are outside",
-        "the legacy transaction mode of the sqlite3 driver (documented as handling SAVEPOINT incorrectly) is outside",
-        "no faults: DBAPI errors during commit / rollback are C27's subject",
-        "two-phase transactions, execution options, asyncio, threads are outside",
+        "abstract contracts for commit / rollback / close / _transaction_is_active / _transaction_is_closed / _rollback_can_be_called of the concrete transaction classes: they may change the transaction's own state and may raise; they do not touch the context-manager links",
+        "under proof: TransactionalContext.__enter__, __exit__ (26 paths), _trans_ctx_check; Connection.begin/begin_nested/commit/rollback and Root/NestedTransaction are in the bounded complement",
     ]
-    if tot["evaluated"] < 2 or tot["with_error_step"] < 2 or tot["with_programs_ctx_dead"] < 2:
-        run.crashes.append("vacuity guard: nothing evaluated")
-    report(run, failures)
-
-
-def report(run, failures):
-    seen = {}
-    for d in sorted(failures, key=lambda d: (len(d["ops"]), d["ops"])):
-        desc = dict(ops=d["ops"], step=d["step"], op=d["op"], clause=d["clause"], pre=d["pre"], target=d.get("target"))
-        dj = json.dumps(desc, sort_keys=True)
-        k = run.match_known(function=FUNCTION, input=dj)
-        if k is not None:
-            run.known_finding(k, "bounded exploration on the real Connection over SQLite")
-            continue
-        sig = (d["clause"], d["op"], d["pre"])
-        seen[sig] = seen.get(sig, 0) + 1
-        if seen[sig] > 1 or len(seen) > 12:
-            continue
-        run.violation(f"C23-{d['clause']}-{abs(hash(dj)) % 10**8}",
-                      dict(function=FUNCTION, input=desc, expected="contract clause " + d["clause"] + " (module docstring)",
-                           actual=d["detail"], reason="bounded run-time contract check (exhaustive operation sequences)"))
-    if seen:
-        run.coverage["violation_classes"] = {" | ".join(k): v for k, v in seen.items()}
-
-
-def replay(data):
-    warnings.simplefilter("ignore")
-    inp = data["input"]
-    env = Env()
-    try:
-        r = run_seq(env, tuple(inp["ops"]), trace=True)
-    finally:
-        env.close()
-    if r["status"] == "fail":
-        f = r["failure"]
-        print(f"REPLAY-FAILS {FUNCTION} input={json.dumps(inp['ops'])} step={f['step']} op={f['op']} clause={f['clause']} {f['detail']} [before: {f['pre']}]")
-        for s in r["trace"]:
-            print("   ", json.dumps(s))
-        return 1
-    print(f"REPLAY-PASSES {FUNCTION} input={json.dumps(inp['ops'])}")
-    return 0
